@@ -288,6 +288,18 @@ GOLDEN_SKELETONS = {
         "}except:Name('Exception', Load()){ raise:GarbageCollectionAborted } for{ call:_normalize_path do:reachable_data_files.add } } "
         "call:_load_inflight_protection set:protected_files if{ }else{ } call:_gc_prefix set:subscript set:all_reachable_manifests "
         "call:_gc_prefix set:subscript return",
+        # the same with the guard on the entries of a manifest list: an entry whose manifest path is not a string aborts
+        # (`if not isinstance(m_path, str): raise GarbageCollectionAborted`) before the `if m_path:` that skips an empty one.
+        # For Model/GC.v such a list is not a list (Model/Doc.v list_doc_content: the content class of an unreadable list)
+        "set:stats call:metadata_manager.refresh set:metadata if{ return }else{ } set:reachable_data_files set:reachable_manifests "
+        "set:reachable_manifest_lists for{ set:m_list_path if{ call:_normalize_path do:reachable_manifest_lists.add }else{ } } "
+        "for{ try{ call:storage.exists if{ raise:FileNotFoundError }else{ } call:file_manager.read_manifest_list_file set:manifests "
+        "}except:Name('Exception', Load()){ raise:GarbageCollectionAborted } for{ set:m_path if{ raise:GarbageCollectionAborted }else{ } "
+        "if{ call:_normalize_path do:reachable_manifests.add }else{ } } } "
+        "for{ try{ call:storage.exists if{ raise:FileNotFoundError }else{ } call:file_manager.read_manifest_file set:data_files "
+        "}except:Name('Exception', Load()){ raise:GarbageCollectionAborted } for{ call:_normalize_path do:reachable_data_files.add } } "
+        "call:_load_inflight_protection set:protected_files if{ }else{ } call:_gc_prefix set:subscript set:all_reachable_manifests "
+        "call:_gc_prefix set:subscript return",
     ],
     "_load_inflight_protection": [
         "set:protected call:time.time set:cutoff try{ call:storage.list_files set:markers }except:Name('Exception', Load()){ raise:GarbageCollectionAborted } "
